@@ -1529,6 +1529,34 @@ def run_upb(ctx):
         ask_upb(ctx, dims, local[:1], f"{name} single vector", "no", expect="no")
     ask_upb(ctx, [2, 2], [[[1, 0], [1, 0]], [[0, 1], [0, 1]]], "diag |00>,|11>", "no", expect="no")
     ask_upb(ctx, [2, 3], [[[1, 0], [1, 0, 0]], [[0, 1], [0, 1, 0]], [[1, 1], [0, 0, 1]]], "diag 2x3 three orthogonal products", "no", expect="no")
+    # orthogonal product sets in EVERY listing order (and with the "no" families reordered): the verdict is a property
+    # of the set, not of the order of the list.  Sets: subsets of {a_i (x) b_{i,j}} with an orthogonal integer basis
+    # (a_i) of party A and, for each i, an orthogonal integer basis (b_{i,j}) of party B.
+    import itertools
+    quick = ctx.tier == "quick"
+    bases = {2: [[[1, 0], [0, 1]], [[1, 1], [1, -1]]],
+             3: [[[1, 0, 0], [0, 1, 0], [0, 0, 1]], [[1, 1, 0], [1, -1, 0], [0, 0, 1]], [[1, 1, 1], [1, -1, 0], [1, 1, -2]]]}
+    sets = []
+    for _ in range(8 if quick else 60):
+        dA, dB = [(2, 2), (2, 3), (3, 2), (3, 3)][int(rng.integers(4))]
+        A = bases[dA][int(rng.integers(len(bases[dA])))]
+        full = []
+        for a in A:
+            B = bases[dB][int(rng.integers(len(bases[dB])))]
+            full += [[a, b] for b in B]
+        k = int(rng.integers(2, min(len(full), 5)))
+        pick = [full[int(i)] for i in rng.choice(len(full), size=k, replace=False)]
+        sets.append(([dA, dB], pick, "orthogonal product subset"))
+    for name, dims, local in upb_families():
+        for drop in range(len(local)):
+            sets.append((dims, [v for i, v in enumerate(local) if i != drop], f"{name} minus vector {drop}"))
+    for dims, local, label in sets:
+        orders = list(itertools.permutations(range(len(local))))
+        cap = 4 if quick else 24
+        if len(orders) > cap:
+            orders = [orders[int(i)] for i in rng.choice(len(orders), size=cap, replace=False)]
+        for od in orders:
+            ask_upb(ctx, dims, [local[i] for i in od], f"{label}, listing order {list(od)}", "order", expect=None)
 
 
 # ------------------------------------------------------------------------------------------------
